@@ -428,3 +428,86 @@ Proof. split; vm_compute; reflexivity. Qed.
    unreachable by C02_borders: minLID >= 1) *)
 Example C02_range_rev_from0_runs_on : range_node 2000 true 0 3 = OutOfFuel.
 Proof. vm_compute. reflexivity. Qed.
+
+(* ------------------------------------------------------------------ generated definitions (Gen.v)
+   Gen.v is regenerated from the Go sources on every run by harness/cmd/go2coq (spec: props/C02/gen.json, trusted
+   externs in GenPrelude.v: sort.Search -> sort_Search, the idsIndex interface -> ids_index). The theorems below tie
+   the GENERATED seq.LessOrEqual / Less, util.BinSearchInRange, processor.getLIDsBorders and frac.inverser.Len /
+   Inverse / Revert to the N-based model functions the theorems above are about (id_le, id_geb,
+   bin_search_in_range, lids_borders: C02_borders, C02_table_sorted, C02_search_exact; inverse: C02_tx_inverser):
+   a change of one of these Go functions changes Gen.v and the corresponding theorem stops compiling. *)
+From Coq Require Import ZArith.
+From VLib Require GoSem.
+From C02 Require Import GenPrelude Gen ProofsGen.
+
+Theorem C02_gen_LessOrEqual_refines : forall a b, go_seq_LessOrEqual (zid a) (zid b) = id_le a b.
+Proof. exact gen_LessOrEqual_refines. Qed.
+Print Assumptions C02_gen_LessOrEqual_refines.
+
+(* seq.Less(a, b) = not (a >= b) in the order of the LID table (id_geb, C02_table_sorted) *)
+Theorem C02_gen_Less_refines : forall a b, go_seq_Less (zid a) (zid b) = negb (id_geb a b).
+Proof. exact gen_Less_refines. Qed.
+Print Assumptions C02_gen_Less_refines.
+
+(* the trusted extern sort_Search (65 rounds) returns what the model's fuelled search_loop returns for every
+   predicate that does not panic below n, every n < 2^64: no OutOfFuel there *)
+Theorem C02_gen_sort_Search_adequate : forall (f : N -> bool) (F : Z -> GoSem.outcome bool) n v,
+  (forall h, h < n -> F (Z.of_N h) = GoSem.Val (f h)) -> n < 18446744073709551616 ->
+  search_loop (S (N.to_nat n)) f 0 n = Ok v -> sort_Search (Z.of_N n) F = GoSem.Val (Z.of_N v).
+Proof. exact sort_Search_N. Qed.
+Print Assumptions C02_gen_sort_Search_adequate.
+
+Theorem C02_gen_BinSearchInRange_refines : forall from to (f : N -> bool) (F : Z -> GoSem.outcome bool) v,
+  from <= to + 1 -> to < 4611686018427387904 ->
+  (forall x, from <= x <= to -> F (Z.of_N x) = GoSem.Val (f x)) ->
+  bin_search_in_range from to f = Ok v ->
+  go_util_BinSearchInRange (Z.of_N from) (Z.of_N to) F = GoSem.Val (Z.of_N v).
+Proof. exact gen_BinSearchInRange_refines. Qed.
+Print Assumptions C02_gen_BinSearchInRange_refines.
+
+(* getLIDsBorders as generated, called with the index of a fraction whose LID table is tab (Len() = stored IDs + 1,
+   LessOrEqual = lid_le), = lids_borders for every table of fewer than 2^32 - 1 IDs and every uint64 range *)
+Theorem C02_gen_getLIDsBorders_refines : forall tab from to a b,
+  N.of_nat (length tab) + 1 < 4294967296 -> from <= max_u64 -> to <= max_u64 ->
+  lids_borders from to tab = Ok (a, b) ->
+  go_processor_getLIDsBorders (Z.of_N from) (Z.of_N to) (zix tab) = GoSem.Val (Z.of_N a, Z.of_N b)
+  /\ 1 <= a <= N.of_nat (length tab) + 1 /\ a <= b + 1 /\ b <= N.of_nat (length tab).
+Proof. exact gen_getLIDsBorders_refines. Qed.
+Print Assumptions C02_gen_getLIDsBorders_refines.
+
+(* thm:C02_borders directly over the GENERATED getLIDsBorders *)
+Theorem C02_borders_gen : forall c from to, Forall ok_doc c -> N.of_nat (length c) + 1 < 4294967296 ->
+  from <= max_u64 -> to <= max_u64 ->
+  exists lo hi, go_processor_getLIDsBorders (Z.of_N from) (Z.of_N to) (zix (table c)) = GoSem.Val (Z.of_N lo, Z.of_N hi) /\
+    1 <= lo /\ lo <= hi + 1 /\ hi <= N.of_nat (length c) /\
+    (forall lid d, nth_error (table c) (N.to_nat (lid - 1)) = Some d -> 1 <= lid ->
+       (lo <= lid /\ lid <= hi <-> in_range from to d = true)).
+Proof. exact borders_gen. Qed.
+Print Assumptions C02_borders_gen.
+
+Theorem C02_gen_inverser_Len_refines : forall values inversion, N.of_nat (length values) < 4611686018427387904 ->
+  go_frac_inverser_Len (zinv values inversion) = Z.of_N (N.of_nat (length values) + 1).
+Proof. exact gen_inverser_Len_refines. Qed.
+Print Assumptions C02_gen_inverser_Len_refines.
+
+(* inverser.Inverse as generated = the model's inverse, the lookup inverse_lids / C02_tx_inverser are about *)
+Theorem C02_gen_inverser_Inverse_refines : forall values inversion k,
+  go_frac_inverser_Inverse (zinv values inversion) (Z.of_N k) =
+  GoSem.Val (match inverse inversion k with Some v => (Z.of_N v, true) | None => (0%Z, false) end).
+Proof. exact gen_inverser_Inverse_refines. Qed.
+Print Assumptions C02_gen_inverser_Inverse_refines.
+
+Theorem C02_gen_inverser_Revert_refines : forall values inversion i, 1 <= i -> i <= N.of_nat (length values) ->
+  i < 4294967296 ->
+  go_frac_inverser_Revert (zinv values inversion) (Z.of_N i) = GoSem.Val (Z.of_N (nth (N.to_nat (i - 1)) values 0)).
+Proof. exact gen_inverser_Revert_refines. Qed.
+Print Assumptions C02_gen_inverser_Revert_refines.
+
+(* non-vacuity: the generated functions compute (vm_compute FIRST: never let `split` unify such equations lazily) *)
+Example C02_gen_witness :
+  let ix := mk_ix go_ID 5 (fun lid x => go_seq_LessOrEqual (mk_go_ID (nth (Z.to_nat lid) [0; 40; 30; 30; 10]%Z 0%Z) 7%Z) x) in
+  go_processor_getLIDsBorders 20%Z 35%Z ix = GoSem.Val (2%Z, 3%Z) /\
+  go_frac_inverser_Inverse (mk_go_inverser [2; 0]%Z [2; 0; 1]%Z) 2%Z = GoSem.Val (1%Z, true) /\
+  go_frac_inverser_Inverse (mk_go_inverser [2; 0]%Z [2; 0; 1]%Z) 1%Z = GoSem.Val (0%Z, false) /\
+  go_frac_inverser_Revert (mk_go_inverser [2; 0]%Z [2; 0; 1]%Z) 0%Z = GoSem.Panic.
+Proof. vm_compute. repeat split; reflexivity. Qed.
